@@ -96,6 +96,22 @@ func genC02(t *rapid.T) c02Case {
 		}
 		return c
 	}
+	if rapid.IntRange(0, 5).Draw(t, "directed4") == 0 {
+		// the old leader is deposed while it is alive and still answers requests;
+		// one follower is ahead of the replica that gets elected: whose answer to
+		// its epoch-end request does it act on?
+		c.Steps = []c02Step{
+			{Op: "publish", N: rapid.IntRange(1, 3).Draw(t, "n0"), Policy: 2}, {Op: "settle"},
+			{Op: "hold"}, {Op: "leader", X: 1, Sel: 0}, {Op: "settle"}, // c leads, a and b follow
+			{Op: "crash", X: 1, Sel: 0}, // b goes away
+			{Op: "publish", N: rapid.IntRange(1, 4).Draw(t, "n1"), Policy: 1}, {Op: "settle"}, // c and a get them
+			{Op: "hold"}, {Op: "restart", X: 1}, // b is back but cannot catch up
+			{Op: "leader", X: 1, Sel: 0}, // b is elected; a learns of it while c still believes it leads
+			{Op: "publish", N: rapid.IntRange(1, 3).Draw(t, "n2"), Policy: 2}, {Op: "settle"},
+			{Op: "publish", N: rapid.IntRange(1, 2).Draw(t, "n3"), Policy: 2}, {Op: "settle"},
+		}
+		return c
+	}
 	n := rapid.IntRange(4, 30).Draw(t, "nsteps")
 	for i := 0; i < n; i++ {
 		st := c02Step{X: rapid.IntRange(0, 2).Draw(t, "x"), Sel: rapid.IntRange(0, 5).Draw(t, "sel")}
@@ -222,7 +238,10 @@ func c02ReadLog(p *partition) ([]c02Entry, error) {
 func runC02(c c02Case, o *vfutil.Obs) *vfutil.Failure {
 	c02NATSOnce.Do(func() { c02NS = vfStartNATS() })
 	root, _ := os.MkdirTemp(scratchRoot(), "c02")
-	defer os.RemoveAll(root)
+	// the directory stays until the driver removes the shard's scratch space: a
+	// straggling replication goroutine that writes after the case has ended
+	// would otherwise panic the process
+	_ = root
 	c02Seq++
 	w := &c02World{ns: c02NS, name: fmt.Sprintf("rep%d", c02Seq), nsName: fmt.Sprintf("c02n%d", c02Seq), nodes: map[string]*c02Node{}}
 	ids := []string{"a", "b", "c"}
